@@ -649,6 +649,33 @@ pub fn run_c16(ctx: &Ctx) -> Outcome {
                 }
             }
         }
+        // every 2-byte tail after the gate draw: each value a range draw can take from fuzzer bytes
+        // (memo-index 0..999, bit positions, boundary / branch selectors, lengths) occurs, so an
+        // off-by-one at the end of a range (e.g. 1000 being reachable) cannot hide behind its 1/1000 odds
+        let gate = 0.5f64.to_bits().to_le_bytes();
+        let probes: Vec<(MutK, bool, Val)> = vec![
+            (MutK::Memoindex, true, Val::Memo(5)),
+            (MutK::Memoindex, false, Val::Memo(5)),
+            (MutK::Memoindex, false, Val::Memo(0)),
+            (MutK::Offbyone, false, Val::Memo(0)),
+            (MutK::Offbyone, false, Val::Int(i32::MAX)),
+            (MutK::Bitflip, false, Val::Int(0)),
+            (MutK::Bitflip, false, Val::Long(0)),
+            (MutK::Boundary, false, Val::Int(7)),
+            (MutK::Boundary, false, Val::Float(7.0f64.to_bits())),
+            (MutK::Stringlen, false, Val::Str("abc".into())),
+            (MutK::Stringlen, false, Val::Bytes(vec![1, 2, 3])),
+            (MutK::Character, false, Val::Str("h\u{e9}llo".into())),
+            (MutK::Character, false, Val::Bytes(vec![9, 8, 7])),
+        ];
+        for x in 0..65536u32 {
+            let mut b = gate.to_vec();
+            b.push((x >> 8) as u8);
+            b.push(x as u8);
+            for (m, u, v) in &probes {
+                items.push(Call { mutator: *m, unsafe_mode: *u, val: v.clone(), rate_bits: 1.0f64.to_bits(), src: Src::Bytes(b.clone()) });
+            }
+        }
         let (st, found) = run_enum(items, |c, st| check_c16(ctx, c, st));
         out.stats.merge(st);
         if let Some((c, f)) = found {
